@@ -16,6 +16,8 @@ import (
 	"strconv"
 	"strings"
 	"sync"
+
+	"github.com/cespare/xxhash/v2"
 )
 
 type ResourceDef struct {
@@ -50,6 +52,7 @@ type LogEntry struct {
 	Pre      map[string]interface{} `json:"pre"`
 	Post     map[string]interface{} `json:"post"`
 	Injected bool                   `json:"injected,omitempty"`
+	BodyHash string                 `json:"bodyHash,omitempty"` // xxhash64 of the raw apply-patch body
 	// hook calls (Verb == "hook") share the log so that the global order is recorded
 	Hook     string                 `json:"hook,omitempty"`
 	HookReq  map[string]interface{} `json:"hookReq,omitempty"`
@@ -266,11 +269,7 @@ func specPart(o map[string]interface{}) map[string]interface{} {
 	return c
 }
 
-func decodeBody(r *http.Request) (map[string]interface{}, error) {
-	b, err := io.ReadAll(r.Body)
-	if err != nil {
-		return nil, err
-	}
+func decodeBytes(b []byte) (map[string]interface{}, error) {
 	if len(b) == 0 {
 		return nil, nil
 	}
@@ -385,7 +384,11 @@ func (s *Sim) serve(w http.ResponseWriter, r *http.Request) {
 		b, _ := io.ReadAll(r.Body)
 		rawPatch = string(b)
 	} else {
-		body, err = decodeBody(r)
+		raw, _ := io.ReadAll(r.Body)
+		if r.Method == "PATCH" {
+			rawPatch = strconv.FormatUint(xxhash.Sum64(raw), 10)
+		}
+		body, err = decodeBytes(raw)
 	}
 	if err != nil {
 		writeJSON(w, 400, status(400, "BadRequest", err.Error()))
@@ -447,6 +450,7 @@ func (s *Sim) serve(w http.ResponseWriter, r *http.Request) {
 	}
 	if verb == "apply" {
 		e.Opts = map[string]interface{}{"fieldManager": q.Get("fieldManager"), "force": q.Get("force")}
+		e.BodyHash = rawPatch
 	}
 	if verb == "patchRemove" {
 		e.Opts = map[string]interface{}{"patchType": r.Header.Get("Content-Type"), "patch": rawPatch}
